@@ -2,11 +2,15 @@
   D128/Proofs/Words128.lean — exact arithmetic specifications of the generated 128-bit
   integer routines of `D128/Gen/Int.lean` (Go source: /repo/int.go, type `uint128`).
 
+  Companion modules: `Words128Log.lean` (`bits.Len64`, `uint128.log10`) and
+  `Words128Div.lean` (`uint128.div`, the general 128/128 division).
+
   Provided theorems (all about the generated `Gen.*` definitions, for all inputs):
 
   math/bits helpers
   * `Go.bits.Add64_spec`, `Go.bits.Sub64_spec`, `Go.bits.Mul64_spec`, `Go.bits.Div64_eq`
-  * `U128.toNat_lt`, `U128.toNat_inj`, `U128.eq_iff_toNat_eq`
+  * `U128.toNat_lt`, `U128.toNat_inj`, `U128.eq_iff_toNat_eq`, `U128.toNat_ofNat`, `U128.ofNat_toNat`,
+    `U128.eq_ofNat_of_toNat_eq`, `UInt64.eq_ofNat_of_toNat_eq`, `U192.toNat_lt`, `U256.toNat_lt`
 
   words
   * `U128_add64_toNat`   : (add64 n o).toNat = (n.toNat + o.toNat) % 2^128
@@ -14,21 +18,25 @@
   * `U128_sub64_toNat`   : (sub64 n o).toNat = (n.toNat + 2^128 - o.toNat) % 2^128
   * `U128_sub64_toNat_of_le` : o.toNat ≤ n.toNat → (sub64 n o).toNat = n.toNat - o.toNat
   * `U128_add_toNat`     : (add n o).toNat = n.toNat + o.toNat                    (U192)
-  * `U128_sub_toNat`, `U128_sub_borrow`, `U128_sub_toNat_of_le`, `U128_sub_borrow_eq_zero_iff`
+  * `U128_sub_toNat`     : (sub n o).1.toNat = (n.toNat + 2^128 - o.toNat) % 2^128
+  * `U128_sub_borrow`    : (sub n o).2 = if n.toNat < o.toNat then 1 else 0
+  * `U128_sub_borrow_eq_one_iff`, `U128_sub_borrow_eq_zero_iff`, `U128_sub_toNat_of_le`
   * `U128_twos_toNat`    : (twos n).toNat = (2^128 - n.toNat) % 2^128
   * `U128_mul64_toNat`   : (mul64 n o).toNat = (n.toNat * o.toNat) % 2^128
   * `U128_mul64_toNat_of_lt` : no-overflow corollary
   * `U128_cmp_eq`        : cmp n o = if n.toNat < o.toNat then -1 else if n.toNat = o.toNat then 0 else 1
   * `U128_cmp_eq_neg_one_iff`, `U128_cmp_eq_zero_iff`, `U128_cmp_eq_one_iff`,
     `U128_cmp_lt_zero_iff`, `U128_cmp_ge_zero_iff`, `U128_cmp_gt_zero_iff`, `U128_cmp_le_zero_iff`
-  * `U128_divK_eq` / `U128_divK_spec` (K = 10, 100, 1000, 10000, 1e8, 1e19):
+  * `U128_divK_spec` (K = div10, div100, div1000, div10000, div1e8, div1e19):
       ∃ q r, Gen.U128.divK n = .ok (q, r) ∧ q.toNat = n.toNat / K ∧ r.toNat = n.toNat % K
+    the equational forms `U128_divK_eq : Gen.U128.divK n = .ok (U128.ofNat (n.toNat / K), UInt64.ofNat (n.toNat % K))`
     and the `@[spec]` Hoare triples `U128_divK_triple`; `U128_divSmall` is the generic body
     (also the `o.w1 = 0` branch of `uint128.div`); `Go.bits.Div64_ok`, `Go.triple_of_ok`.
   * `U128_mul_toNat`     : (mul n o).toNat = n.toNat * o.toNat                    (U256)
   * `U128_mul1e38_toNat` : (mul1e38 n).toNat = n.toNat * 10^38                    (U256)
   * `Go.shl_toNat`, `Go.shr_toNat` (UInt64, any count), `UInt64.toNat_or_of_disjoint`
   * `U128_lsh_toNat`     : (lsh n o).toNat = (n.toNat * 2^o.toNat) % 2^128   (every o, also > 128)
+  * `U128_lsh_toNat_of_lt` : no-overflow corollary
   * `U128_rsh_toNat`     : (rsh n o).toNat = n.toNat / 2^o.toNat             (every o, also > 128)
   * `U128_or64_toNat`    : (or64 n o).toNat = n.toNat ||| o.toNat; `U128_or64_toNat_of_disjoint`
   * `uint128PowersOf10_toNat` : i < 39 → uint128PowersOf10[i].toNat = 10^i; `uint128PowersOf10_vget`
@@ -122,6 +130,20 @@ theorem U128.toNat_inj {n o : U128} (h : n.toNat = o.toNat) : n = o := by
 
 theorem U128.eq_iff_toNat_eq {n o : U128} : n = o ↔ n.toNat = o.toNat :=
   ⟨fun h => h ▸ rfl, U128.toNat_inj⟩
+
+theorem U128.toNat_ofNat (m : Nat) (h : m < 2^128) : (U128.ofNat m).toNat = m := by
+  simp only [U128.ofNat, U128.toNat, UInt64.toNat_ofNat']
+  omega
+
+theorem U128.ofNat_toNat (n : U128) : U128.ofNat n.toNat = n :=
+  U128.toNat_inj (U128.toNat_ofNat _ n.toNat_lt)
+
+theorem U128.eq_ofNat_of_toNat_eq {q : U128} {m : Nat} (h : q.toNat = m) : q = U128.ofNat m := by
+  rw [← h, U128.ofNat_toNat]
+
+theorem UInt64.eq_ofNat_of_toNat_eq {r : UInt64} {m : Nat} (h : r.toNat = m) :
+    r = UInt64.ofNat m := by
+  rw [← h, UInt64.ofNat_toNat]
 
 theorem U192.toNat_lt (n : U192) : n.toNat < 2^192 := by
   have := n.w0.toNat_lt; have := n.w1.toNat_lt; have := n.w2.toNat_lt
@@ -355,6 +377,12 @@ theorem U128_div10_spec (n : U128) :
   simp only [decide_eq_true_eq, UInt64.lt_iff_toNat_lt]
   exact U128_divSmall n 10 (by decide)
 
+/-- equational form of `U128_div10_spec`, convenient for rewriting. -/
+theorem U128_div10_eq (n : U128) :
+    Gen.U128.div10 n = .ok (U128.ofNat (n.toNat / 10), UInt64.ofNat (n.toNat % 10)) := by
+  obtain ⟨q, r, e, hq, hr⟩ := U128_div10_spec n
+  rw [e, U128.eq_ofNat_of_toNat_eq hq, UInt64.eq_ofNat_of_toNat_eq hr]
+
 @[spec] theorem U128_div10_triple (n : U128) :
     ⦃⌜True⌝⦄ Gen.U128.div10 n
     ⦃⇓ x => ⌜x.1.toNat = n.toNat / 10 ∧ x.2.toNat = n.toNat % 10⌝⦄ := by
@@ -367,6 +395,12 @@ theorem U128_div100_spec (n : U128) :
   unfold Gen.U128.div100
   simp only [decide_eq_true_eq, UInt64.lt_iff_toNat_lt]
   exact U128_divSmall n 100 (by decide)
+
+/-- equational form of `U128_div100_spec`, convenient for rewriting. -/
+theorem U128_div100_eq (n : U128) :
+    Gen.U128.div100 n = .ok (U128.ofNat (n.toNat / 100), UInt64.ofNat (n.toNat % 100)) := by
+  obtain ⟨q, r, e, hq, hr⟩ := U128_div100_spec n
+  rw [e, U128.eq_ofNat_of_toNat_eq hq, UInt64.eq_ofNat_of_toNat_eq hr]
 
 @[spec] theorem U128_div100_triple (n : U128) :
     ⦃⌜True⌝⦄ Gen.U128.div100 n
@@ -381,6 +415,12 @@ theorem U128_div1000_spec (n : U128) :
   simp only [decide_eq_true_eq, UInt64.lt_iff_toNat_lt]
   exact U128_divSmall n 1000 (by decide)
 
+/-- equational form of `U128_div1000_spec`, convenient for rewriting. -/
+theorem U128_div1000_eq (n : U128) :
+    Gen.U128.div1000 n = .ok (U128.ofNat (n.toNat / 1000), UInt64.ofNat (n.toNat % 1000)) := by
+  obtain ⟨q, r, e, hq, hr⟩ := U128_div1000_spec n
+  rw [e, U128.eq_ofNat_of_toNat_eq hq, UInt64.eq_ofNat_of_toNat_eq hr]
+
 @[spec] theorem U128_div1000_triple (n : U128) :
     ⦃⌜True⌝⦄ Gen.U128.div1000 n
     ⦃⇓ x => ⌜x.1.toNat = n.toNat / 1000 ∧ x.2.toNat = n.toNat % 1000⌝⦄ := by
@@ -393,6 +433,12 @@ theorem U128_div10000_spec (n : U128) :
   unfold Gen.U128.div10000
   simp only [decide_eq_true_eq, UInt64.lt_iff_toNat_lt]
   exact U128_divSmall n 10000 (by decide)
+
+/-- equational form of `U128_div10000_spec`, convenient for rewriting. -/
+theorem U128_div10000_eq (n : U128) :
+    Gen.U128.div10000 n = .ok (U128.ofNat (n.toNat / 10000), UInt64.ofNat (n.toNat % 10000)) := by
+  obtain ⟨q, r, e, hq, hr⟩ := U128_div10000_spec n
+  rw [e, U128.eq_ofNat_of_toNat_eq hq, UInt64.eq_ofNat_of_toNat_eq hr]
 
 @[spec] theorem U128_div10000_triple (n : U128) :
     ⦃⌜True⌝⦄ Gen.U128.div10000 n
@@ -407,6 +453,12 @@ theorem U128_div1e8_spec (n : U128) :
   simp only [decide_eq_true_eq, UInt64.lt_iff_toNat_lt]
   exact U128_divSmall n 100000000 (by decide)
 
+/-- equational form of `U128_div1e8_spec`, convenient for rewriting. -/
+theorem U128_div1e8_eq (n : U128) :
+    Gen.U128.div1e8 n = .ok (U128.ofNat (n.toNat / 10^8), UInt64.ofNat (n.toNat % 10^8)) := by
+  obtain ⟨q, r, e, hq, hr⟩ := U128_div1e8_spec n
+  rw [e, U128.eq_ofNat_of_toNat_eq hq, UInt64.eq_ofNat_of_toNat_eq hr]
+
 @[spec] theorem U128_div1e8_triple (n : U128) :
     ⦃⌜True⌝⦄ Gen.U128.div1e8 n
     ⦃⇓ x => ⌜x.1.toNat = n.toNat / 10^8 ∧ x.2.toNat = n.toNat % 10^8⌝⦄ := by
@@ -419,6 +471,12 @@ theorem U128_div1e19_spec (n : U128) :
   unfold Gen.U128.div1e19
   simp only [decide_eq_true_eq, UInt64.lt_iff_toNat_lt]
   exact U128_divSmall n 10000000000000000000 (by decide)
+
+/-- equational form of `U128_div1e19_spec`, convenient for rewriting. -/
+theorem U128_div1e19_eq (n : U128) :
+    Gen.U128.div1e19 n = .ok (U128.ofNat (n.toNat / 10^19), UInt64.ofNat (n.toNat % 10^19)) := by
+  obtain ⟨q, r, e, hq, hr⟩ := U128_div1e19_spec n
+  rw [e, U128.eq_ofNat_of_toNat_eq hq, UInt64.eq_ofNat_of_toNat_eq hr]
 
 @[spec] theorem U128_div1e19_triple (n : U128) :
     ⦃⌜True⌝⦄ Gen.U128.div1e19 n
@@ -600,6 +658,10 @@ theorem Go.idx_u64 (o : UInt64) : Go.idx o = (o.toNat : Int) := rfl
     generalize n.w1.toNat * 2^o.toNat = X at *
     generalize 2^o.toNat = P at *
     apply Nat.eq_mod_of_add_mul (X / 2^64) <;> omega
+
+theorem U128_lsh_toNat_of_lt (n : U128) (o : UInt64) (h : n.toNat * 2^o.toNat < 2^128) :
+    (Gen.U128.lsh n o).toNat = n.toNat * 2^o.toNat := by
+  rw [U128_lsh_toNat, Nat.mod_eq_of_lt h]
 
 @[simp] theorem U128_rsh_toNat (n : U128) (o : UInt64) :
     (Gen.U128.rsh n o).toNat = n.toNat / 2^o.toNat := by
